@@ -622,7 +622,7 @@ def writable_array(obj, **kwargs):
         arr = np.asarray(obj, **kwargs)
         yield arr
     finally:
-        if arr is not None:
+        if arr is not None and arr is not obj:
             obj[:] = arr
 
 
